@@ -118,7 +118,9 @@ def run(ctx: common.Ctx):
 def report_sized(ctx, recs):
     nprog = 0
     for rec in recs:
-        if rec is None:
+        if rec is None or isinstance(rec, tables.WorkerError):
+            if rec is not None:
+                ctx.count("harness-exception-skipped")
             continue
         if isinstance(rec, tables.Crashed):
             ctx.violation("program/interpreter-crashed", f"worker process died or hung on job {rec.item!r}: {rec.why}",
